@@ -52,6 +52,23 @@ def quoting_rule(crate, prop, rule="C04.R2"):
             continue
         name_local = slots[1] if len(slots) > 1 else None
         ok = name_local is not None and _only_calls(b, name_local, r"utils::raw_name_to_ts_field$", t.projs[1] if len(t.projs) > 1 else None)
+        if not ok and name_local is not None:
+            # the name may travel in a struct of the crate (`FieldKey { name, docs }`): followed to where that struct is filled
+            desc = panics.operand_origin(b, {"k": "copy", "pl": {"l": name_local, "p": list(t.projs[1] if len(t.projs) > 1 else [])}})
+            mcar = re.match(r"^field (\S+)\.(\w+)$", desc)
+            sites = []
+            if mcar and not re.search(r"Attr$", mcar.group(1)):
+                for bx in crate.bodies:
+                    for blk in range(bx.n):
+                        for st in bx.stmts(blk):
+                            if st["k"] == "assign" and st["rv"]["k"] == "agg" and (st["rv"].get("adt") or "") == mcar.group(1) and mcar.group(2) in (st["rv"].get("fields") or []):
+                                o = st["rv"]["ops"][st["rv"]["fields"].index(mcar.group(2))]
+                                sites.append(op_local(o) is not None and _only_calls(crate.ibody(bx.path) if bx.kind in ("Fn", "AssocFn") and False else bx, op_local(o), r"utils::raw_name_to_ts_field$"))
+            if sites and all(sites):
+                ok = True
+            elif not sites and (desc.startswith("param") or mcar):
+                r.inst(fn=FIELD_FN, where="%s:%s" % (t.file, t.line), template=lit, name_slot_from=desc, verdict="undecided: where the name comes from is not visible here")
+                continue
         r.inst(fn=FIELD_FN, where="%s:%s" % (t.file, t.line), template=lit, name_slot_from=sorted({(M.callee(o["t"]) or "?") if o["kind"] == "call" else o["kind"] for o in origins(b, name_local, stop=[r"utils::raw_name_to_ts_field$"], transparent=True, component=_comp(t.projs[1] if len(t.projs) > 1 else None))}) if name_local is not None else None, quoted=ok)
         if not ok:
             r.fail(prop, "unquoted-property-name format_field", "the property name interpolated into %r at line %s is not the direct result of raw_name_to_ts_field(..): names such as `foo-bar` would be emitted unquoted" % (lit, t.line), t.file, t.line)
@@ -65,11 +82,11 @@ def docs_slot_rule(crate, prop, rule="C15.R2a"):
     if b is None:
         r.fail(prop, "anchor-missing format_field", "not found")
         return r
-    for t, lit, slots in mts:
-        l0 = slots[0] if slots else None
-        calls, _, consts = M.deep_slice(b, l0, component=_comp(t.projs[0] if t.projs else None)) if l0 is not None else ([], set(), [])
+    from rules.export_rules import _bool_switch
+
+    def evaluate(b, l0, comp):
+        calls, _, consts = M.deep_slice(b, l0, component=comp) if l0 is not None else ([], set(), [])
         # the choice between the two is made by `docs.is_empty()`: the formatted alternative sits behind its false edge
-        from rules.export_rules import _bool_switch
         tests_docs = False
         fmt_blocks = [blk for blk, c in calls if fn_matches(c, r"fmt::format$")]
         for blk, c in b.calls():
@@ -89,7 +106,31 @@ def docs_slot_rule(crate, prop, rule="C15.R2a"):
                             tmpl = M.fmt_template(M._bytes_lit(o["c"].get("dbg")))
         empty = any((c or {}).get("str") == "" for c in consts) or any(fn_matches(c, r"String::new$") for _, c in calls)
         ok = tests_docs and disp_docs and tmpl == "\n" + M.ARG and empty
-        r.inst(fn=FIELD_FN, where="%s:%s" % (t.file, t.line), first_slot_reads_docs=disp_docs, chosen_by_is_empty=tests_docs, prefix=tmpl, empty_alternative=empty, ok=ok)
+        return disp_docs, ok, dict(first_slot_reads_docs=disp_docs, chosen_by_is_empty=tests_docs, prefix=tmpl, empty_alternative=empty)
+    for t, lit, slots in mts:
+        l0 = slots[0] if slots else None
+        comp = _comp(t.projs[0] if t.projs else None)
+        disp_docs, ok, det = evaluate(b, l0, comp)
+        if not ok and l0 is not None:
+            # the prefix may travel in a struct of the crate (`FieldKey { name, docs }`): judged where that struct is filled
+            desc = panics.operand_origin(b, {"k": "copy", "pl": {"l": l0, "p": list(t.projs[0] if t.projs else [])}})
+            mcar = re.match(r"^field (\S+)\.(\w+)$", desc)
+            res = []
+            if mcar and not re.search(r"Attr$", mcar.group(1)):
+                for bx in crate.bodies:
+                    for blk in range(bx.n):
+                        for st in bx.stmts(blk):
+                            if st["k"] == "assign" and st["rv"]["k"] == "agg" and (st["rv"].get("adt") or "") == mcar.group(1) and mcar.group(2) in (st["rv"].get("fields") or []):
+                                o = st["rv"]["ops"][st["rv"]["fields"].index(mcar.group(2))]
+                                if op_local(o) is not None:
+                                    res.append(evaluate(bx, op_local(o), None))
+            if res:
+                disp_docs, ok = all(x[0] for x in res), all(x[1] for x in res)
+                det = dict(res[0][2], carried_by=mcar.group(1))
+            elif mcar or desc.startswith("param"):
+                r.inst(fn=FIELD_FN, where="%s:%s" % (t.file, t.line), first_slot_from=desc, verdict="undecided: where the first slot comes from is not visible here")
+                continue
+        r.inst(fn=FIELD_FN, where="%s:%s" % (t.file, t.line), ok=ok, **det)
         if not disp_docs:
             r.fail(prop, "member-docs-dropped format_field", "a member template does not start with the field's doc comment: documentation of that field would be lost", t.file, t.line)
         elif not ok:
